@@ -18,8 +18,10 @@ lean/TraverseRule.lean (`inv_of_reach`, `traverse_rule_sound`, `traverse_rule_so
 callback call of the real `_traverse_dfs` is an enabled event, and that a run ends with exactly the subtree entered and left, are
 obligations of contracts/C04.py (`C04/_traverse_dfs/enter/...`, `.../leave/...`, `.../post/...`).  What remains by inspection: that the
 first-order obligations emitted below are the instances of the Lean premises (same text, clause by clause - see the header of the
-Lean file), and the frame of the client's callbacks (`modifies` is havocked, not checked).  Evidence lists this as "lemma schema proved
-in Lean 4, instantiated by inspection".
+Lean file).  The frame of the client's callbacks is an obligation of each step (`<step>/callback-changes-only-the-state-the-rule-declares`:
+every container reachable from the carrier's frame that `modifies` does not cover, and every other local, is unchanged by the real callback
+and its ghost code; extension values that are not stock containers are not followed).  Evidence lists the rule as "lemma schema proved in
+Lean 4, instantiated by inspection".
 """
 from __future__ import annotations
 
@@ -141,6 +143,71 @@ def _owned(v, mark, seen=None):
     return True
 
 
+# ---- the frame of the client's callbacks: a step may change only the state the rule declares (`modifies`), which is what the rule havocs
+def _containers(v, acc, seen):
+    """mutable containers reachable from a value (through list / dict items, object fields, tuples); extension values that are not
+    one of the stock container classes are not followed (their contents are then outside this check)"""
+    from .values import NArr, Obj, PDict
+
+    if id(v) in seen:
+        return acc
+    seen.add(id(v))
+    if isinstance(v, (tuple, list)):
+        for x in v:
+            _containers(x, acc, seen)
+    elif isinstance(v, NArr):
+        acc.append(v.root())
+    elif isinstance(v, SArr):
+        acc.append(v)
+    elif isinstance(v, PList):
+        acc.append(v)
+        for x in (v.items or ()):
+            _containers(x, acc, seen)
+    elif isinstance(v, PDict):
+        acc.append(v)
+        for x in (v.items.values() if v.items is not None else ()):
+            _containers(x, acc, seen)
+    elif isinstance(v, Obj):
+        acc.append(v)
+        for x in v.fields.values():
+            _containers(x, acc, seen)
+    return acc
+
+
+def _content(v):
+    """what a container holds right now, as a flat tuple of z3 terms / scalars / object identities"""
+    from .values import NArr, Obj, PDict
+
+    if isinstance(v, NArr):
+        return ("narr", tuple(v.items))
+    if isinstance(v, SArr):
+        return ("sarr", v.arr, v.n)
+    if isinstance(v, PList):
+        return ("list", tuple(v.items)) if v.items is not None else ("slist", tuple(v.cols), v.n)
+    if isinstance(v, PDict):
+        return ("dict", tuple(v.items.items())) if v.items is not None else ("sdict", v.dom, v.val, v.lens)
+    if isinstance(v, Obj):
+        return ("obj", tuple(sorted(v.fields.items(), key=lambda kv: kv[0])))
+    return ("?",)
+
+
+def _same_content(a, b):
+    if isinstance(a, tuple) and isinstance(b, tuple):
+        return len(a) == len(b) and all(_same_content(x, y) for x, y in zip(a, b))
+    if isinstance(a, z3.ExprRef) or isinstance(b, z3.ExprRef):
+        return isinstance(a, z3.ExprRef) and isinstance(b, z3.ExprRef) and a.eq(b)
+    if isinstance(a, Sym) or isinstance(b, Sym):
+        return isinstance(a, Sym) and isinstance(b, Sym) and a.kind == b.kind and a.z.eq(b.z)
+    if a is b:
+        return True
+    if type(a) in (int, bool, float, str, type(None)) or type(a).__module__ in ("fractions", "numpy"):
+        try:
+            return type(a) is type(b) and bool(a == b)
+        except Exception:
+            return False
+    return False  # two different objects: a container slot was rebound
+
+
 def apply(eng, rule: Rule, fr, topology, enter, leave, root):
     from .spec import Frame  # noqa: F401
 
@@ -186,7 +253,7 @@ def apply(eng, rule: Rule, fr, topology, enter, leave, root):
     eng.assumptions.add("ghost definitions per traverse call: Sub (subtree of the start node), nkids / kid / rank (children in table order)")
     eng.assumptions.add("assumed-lemma:traverse client rule: schema proved in Lean (lean/TraverseRule.lean: traverse_rule_sound, _no_enter, _no_leave) over the event model "
                         "whose steps are the callback obligations C04/_traverse_dfs/enter|leave/... and whose end state is C04's postconditions; the obligations emitted here "
-                        "instantiate its premises by inspection; the callbacks' frame (Rule.modifies) is havocked, not checked")
+                        "instantiate its premises by inspection; the callbacks' frame (Rule.modifies) is checked per step for stock containers and locals")
     ctx = Ctx(P, n, rz, Sub, nkids, kid, rank)
     eng.ghost["last-traverse-Sub"] = Sub  # so that the caller's postconditions can speak about the subtree of this call
     eng.ghost["last-traverse-ctx"] = ctx  # ... and about the children enumeration (nkids / kid / rank) of this call
@@ -243,6 +310,28 @@ def apply(eng, rule: Rule, fr, topology, enter, leave, root):
     def assume_J(ENT, LEFT):
         for _, f in J_parts(ENT, LEFT):
             eng.assume(f)
+
+    def frame_before():
+        """snapshot of everything reachable from the carrier's frame that the rule does NOT declare as modified by the callbacks"""
+        declared, seen = set(), set()
+        for t in targets():
+            for c_ in _containers(t, [], seen):
+                declared.add(id(c_))
+        local_names = {m[1] for m in rule.modifies if isinstance(m, tuple) and m[0] == "local"}
+        vs = vars_now()
+        watched = [c_ for c_ in _containers(list(vs.values()), [], set()) if id(c_) not in declared and not getattr(c_, "frozen", False)]
+        scalars = {k: v_ for k, v_ in vs.items() if k not in local_names and (v_ is None or isinstance(v_, (Sym, int, bool, float, str)))}
+        return [(c_, _content(c_)) for c_ in watched], scalars
+
+    def frame_after(step, before):
+        """obligation <step>/callback-changes-only-the-state-the-rule-declares: written in place by the real callback (or its ghost code)
+        = content differs syntactically from the snapshot.  Conservative: writing an equal value back is reported too."""
+        watched, scalars = before
+        changed = [repr(c_)[:60] for c_, old in watched if not _same_content(old, _content(c_))]
+        vs = vars_now()
+        changed += [f"local {k}" for k, v_ in scalars.items() if k in vs and not _same_content(v_, vs[k])]
+        eng.prove(f"{lab}/{step}/callback-changes-only-the-state-the-rule-declares", not changed, "frame",
+                  ("undeclared state written: " + ", ".join(changed)) if changed else "")
 
     emptyset = z3.K(I, z3.BoolVal(False))
     # ---- init
@@ -341,11 +430,13 @@ def apply(eng, rule: Rule, fr, topology, enter, leave, root):
                 for part in ([f for _, f in qe] if isinstance(qe, (list, tuple)) else [qe]):
                     eng.assume(_zb(part))
             pending = stability_before(ENT, LEFT)
+            watch = frame_before()
             ret = eng.call(enter, [xs, pre], {})
             eng.ghost["traverse-last-call"] = dict(x=xz, args=pre, ret=ret, ENT=ENT, LEFT=LEFT)
             if rule.ghost_enter is not None:
                 ctx.ret = ret  # the value the real callback returned (ghost code may record it)
                 rule.ghost_enter(eng, vars_now(), xz, ctx)
+            frame_after("enter", watch)
             ENT2 = z3.Store(ENT, xz, z3.BoolVal(True))
             stability_after("enter", pending)
             prove_J("enter/invariant-preserved", ENT2, LEFT)
@@ -426,6 +517,7 @@ def apply(eng, rule: Rule, fr, topology, enter, leave, root):
                 for part in ([f for _, f in ql] if isinstance(ql, (list, tuple)) else [ql]):  # one hypothesis per conjunct
                     eng.assume(z3.ForAll([k], z3.Implies(z3.And(0 <= k, k < nkids(xz)), _zb(part))))
             pending = stability_before(ENT, LEFT)
+            watch = frame_before()
             ret = eng.call(leave, [xs, args], {})
             if owned_check:
                 eng.prove(f"{lab}/leave/returned-value-owns-its-mutable-parts", _zb(_owned(ret, mark)), "frame")
@@ -433,6 +525,7 @@ def apply(eng, rule: Rule, fr, topology, enter, leave, root):
             if rule.ghost_leave is not None:
                 ctx.ret, ctx.args = ret, args
                 rule.ghost_leave(eng, vars_now(), xz, ctx)
+            frame_after("leave", watch)
             LEFT2 = z3.Store(LEFT, xz, z3.BoolVal(True))
             stability_after("leave", pending)
             prove_J("leave/invariant-preserved", ENT, LEFT2)
